@@ -30,10 +30,10 @@ CHECKS = {
    text="Generated search: clause lists incl. all edge cases for construction/eval/is_sat_partial/condition/exact brute-force counting (n = 0 included); stateful histories on PartialModel/VarSet vs Vec/BTreeSet models; push/decide/pop/hash histories of CnfHasher with residual-signature oracle in both directions (the converse for every pair of states whose prime products fit in 128 bits; there the hash value must factor into one distinct prime per residual literal occurrence); a sub-check of its own hashes formulas with 600..6000 literal occurrences in states whose open clauses lie 64..4096 occurrences apart. Falsification only.",
    note="Trusted: harness evaluator and set models. hash compared only for assignments that falsify no clause and contain the decisions in effect.", ref="5/C15"),
  "C03": dict(tech="model-based stateful property testing (proptest): SDD operation histories vs. truth-table oracle over random vtrees",
-   text="Generated search: random vtrees (all shape families, random leaf orders) x compression on/off x tiny/default unique tables x <=40-operation histories; every returned SDD is read element by element into a truth table and compared with the oracle; pool re-read at checkpoints and at the end; the four vtree relations of apply operands are measured from the shape. Histories include dense functions given by a whole random truth table (decision nodes with more than 20 elements occur). Falsification only; <= 8 variables (<= 4 without compression, where diagrams blow up).",
+   text="Generated search: random vtrees (all shape families, random leaf orders) x compression on/off x tiny/default unique tables x <=40-operation histories; every returned SDD is read element by element into a truth table and compared with the oracle; pool re-read at checkpoints and at the end; the four vtree relations of apply operands are measured from the shape. Histories include dense functions given by a whole random truth table (decision nodes with more than 20 elements occur); in one case of six the <=8 variables sit at random leaves of a vtree with 9..120 leaves (vtree indices beyond 64 and 128). Falsification only; functions of <= 8 variables (<= 4 without compression, where diagrams blow up).",
    note="Trusted: truth-table oracle and SddPtr walker. Uncompressed mode bounded to small inputs because the library's structural node comparison is exponential there (time is never a verdict).", ref="5/C03"),
  "C04": dict(tech="property-based testing of structural invariants with a vtree-shape oracle and a canonicity map keyed by truth table",
-   text="Generated search on the compressing builder (with a Rebuild-by-cubes op as an independent construction route and tiny unique tables): every reachable node is checked for non-false, disjoint, exhaustive primes, variable scoping against the harness's own in-order numbering of the vtree, distinct subs, trimming, and equal functions => pointer equality (results, rebuilds, negations); the first decision-node results are also conditioned on every literal and the cofactors held to the same checks; dense random truth tables give nodes with more than 20 elements. Falsification only; <= 8 variables.",
+   text="Generated search on the compressing builder (with a Rebuild-by-cubes op as an independent construction route and tiny unique tables): every reachable node is checked for non-false, disjoint, exhaustive primes, variable scoping against the harness's own in-order numbering of the vtree, distinct subs, trimming, and equal functions => pointer equality (results, rebuilds, negations); the first decision-node results are also conditioned on every literal and the cofactors held to the same checks; dense random truth tables give nodes with more than 20 elements; in one case of six the variables are embedded in a vtree with 9..120 leaves. Falsification only; functions of <= 8 variables.",
    note="Trusted: ShapeInfo (harness vtree numbering), walker, truth tables. Library predicates is_canonical etc. are only recorded.", ref="5/C04"),
  "C05": dict(tech="property-based differential testing: every bottom-up compilation route vs. the harness's own CNF / expression / plan evaluators",
    text="Generated search: CNFs (all edge cases) through BDD compile (random order, both caches), SDD compile (random and dtree-derived vtrees), dtree plans on both builders, compile-under-assignment vs compile-then-condition (pointer-equal + iterated cofactor); random expressions (7 constructors) and plans (8 constructors) on both builders. A further sub-check compiles CNFs over up to 200 variables (labels crossing 32/64/128) and reads the diagrams on sampled and clause-falsifying assignments. Falsification only; truth-table part <= 7 variables.",
